@@ -22,6 +22,15 @@ class Machinery(Exception):
     """Something in the verification machinery failed; never a verdict (exit 2)."""
 
 
+class DriverCrash(Machinery):
+    """The driver process died (a fatal runtime error of the code under test cannot be recovered in-process).
+    inflight: the inputs that had been started and not finished, from the driver's journal."""
+
+    def __init__(self, msg, inflight):
+        super().__init__(msg)
+        self.inflight = inflight
+
+
 def goenv():
     e = dict(os.environ)
     e["GOFLAGS"] = "-mod=mod"
@@ -178,12 +187,25 @@ def run_vdrive(binary, family, outdir, tier, seed, args=None, replay=None, timeo
     env = goenv()
     if env_extra:
         env.update(env_extra)
+    jp = os.path.join(outdir, "journal.txt")
+    env["VERIF_JOURNAL"] = jp
+
+    def inflight():
+        started, done = [], set()
+        if os.path.exists(jp):
+            for l in open(jp):
+                tag, _, key = l.rstrip("\n").partition(" ")
+                if tag == "S":
+                    started.append(key)
+                elif tag == "D":
+                    done.add(key)
+        return [k for k in started if k not in done]
     try:
         p = subprocess.run(cmd, capture_output=True, text=True, timeout=timeout, env=env)
     except subprocess.TimeoutExpired:
-        raise Machinery("vdrive %s timed out after %ds" % (family, timeout))
+        raise DriverCrash("vdrive %s timed out after %ds" % (family, timeout), inflight())
     if p.returncode != 0:
-        raise Machinery("vdrive %s failed (rc=%d):\n%s" % (family, p.returncode, (p.stdout + p.stderr)[-3000:]))
+        raise DriverCrash("vdrive %s failed (rc=%d):\n%s" % (family, p.returncode, (p.stdout + p.stderr)[-3000:]), inflight())
     meta = json.load(open(os.path.join(outdir, "meta.json")))
     log("vdrive %s: %d traces, %d events, %d chunks, %.1fs" % (family, meta["traces"], meta["events"], meta["chunks"], time.time() - t0))
     return meta
